@@ -1,5 +1,6 @@
 import Marwood.Lemmas.StoreStr
 import Marwood.Lemmas.StoreUtf8
+import Marwood.Lemmas.StoreSigma
 /-!
 # C15 — string and character procedures index by character over all of Unicode
 
@@ -496,6 +497,103 @@ theorem replaceRange_on_bytes (cs new : Text) (a b : Nat) :
   ⟨replaceRange_ok_iff cs new a b, fun _ h => replaceRange_bytes h⟩
 
 
+/-! ## Final_Sigma: `string-downcase` is context sensitive, the foldings are not
+
+`string-downcase` is `str::to_lowercase` = `strLowerCtx` (capital sigma becomes `ς` at the end of a
+word, `σ` elsewhere; `cased` / `caseIgnorable` of the table decide what a word is);
+`string-foldcase` and `string-ci…?` use `strLower` (every character on its own, fix fbafd01). -/
+
+/-- (a) on a string without U+03A3 `str::to_lowercase` is the per-character mapping -/
+theorem downcase_ctx_eq_lower_of_no_sigma (T : CaseTable) (cs : Text) (h : capSigma ∉ cs) :
+    strLowerCtx T cs = strLower T cs := lowerCtxGo_no_sigma T [] cs h
+
+/-- (b) in general both are concatenations of one piece per source character; the pieces of
+    `strLower` are the images `T.lower c`, and those of `str::to_lowercase` are the same except at a
+    capital sigma, whose piece is `σ` or `ς` (`CtxPiece`) -/
+theorem downcase_ctx_sigma_only (T : CaseTable) (cs : Text) :
+    ∃ ps : List (List Char), strLowerCtx T cs = ps.flatten ∧
+      strLower T cs = (cs.map T.lower).flatten ∧ All2 (CtxPiece T) cs ps := by
+  obtain ⟨ps, h1, h2⟩ := lowerCtxGo_pieces T [] cs
+  exact ⟨ps, h1, by simp [strLower, List.flatMap_def], h2⟩
+
+/-- (b') for a table that maps `Σ` to `σ` (as Unicode does): the two results have the same length and
+    agree position by position, except that `str::to_lowercase` may have `ς` where the
+    per-character mapping has `σ` -/
+theorem downcase_ctx_pointwise (T : CaseTable) (hσ : T.lower capSigma = [smallSigma]) (cs : Text) :
+    All2 SigmaVariant (strLowerCtx T cs) (strLower T cs) :=
+  lowerCtxGo_pointwise T hσ [] cs
+
+theorem downcase_ctx_length (T : CaseTable) (hσ : T.lower capSigma = [smallSigma]) (cs : Text) :
+    (strLowerCtx T cs).length = (strLower T cs).length ∧
+    ∀ i (h1 : i < (strLowerCtx T cs).length) (h2 : i < (strLower T cs).length),
+      SigmaVariant (strLowerCtx T cs)[i] (strLower T cs)[i] :=
+  ⟨(downcase_ctx_pointwise T hσ cs).length_eq, (downcase_ctx_pointwise T hσ cs).get⟩
+
+/-- (c) the folding used by `string-foldcase` and `string-ci…?` is context free: the image of a
+    string does not depend on what follows or precedes it (what fix fbafd01 established) -/
+theorem foldcase_context_free (T : CaseTable) (a b : Text) :
+    strLower T (a ++ b) = strLower T a ++ strLower T b := by
+  simp only [strLower, List.flatMap_append]
+
+/-- hence strings of the same length whose characters have pairwise the same folding are
+    `string-ci=?` -/
+theorem string_ci_eq_of_pairwise (T : CaseTable) {a b : Text}
+    (h : All2 (fun x y => T.lower x = T.lower y) a b) :
+    CmpOp.eq.holds (cmpText (strLower T a) (strLower T b)) = true := by
+  rw [strLower_congr T h, cmpText_self]
+  rfl
+
+/-- in terms of `char-ci=?` (`charFoldcase`): when the characters involved have one-character
+    foldings, pairwise `char-ci=?` strings are `string-ci=?` -/
+theorem string_ci_eq_of_char_ci_eq (T : CaseTable) {a b : Text}
+    (h11 : ∀ x ∈ a ++ b, T.lower x = [charFoldcase T x])
+    (h : All2 (fun x y => charFoldcase T x = charFoldcase T y) a b) :
+    CmpOp.eq.holds (cmpText (strLower T a) (strLower T b)) = true := by
+  apply string_ci_eq_of_pairwise
+  induction h with
+  | nil => exact .nil
+  | cons h0 _ ih =>
+    refine .cons ?_ (ih fun x hx => h11 x ?_)
+    · rw [h11 _ (by simp), h11 _ (by simp), h0]
+    · rcases List.mem_append.mp hx with m | m <;> simp [m]
+
+/-- the same over the store: `(string-ci=? a b)` is `#t` -/
+theorem stringCiEq_ok (T : CaseTable) {s : Store} {va vb : VCell} {ia ib : Nat} {a b : Text}
+    (ha : IsStr s va ia a) (hb : IsStr s vb ib b)
+    (h11 : ∀ x ∈ a ++ b, T.lower x = [charFoldcase T x])
+    (h : All2 (fun x y => charFoldcase T x = charFoldcase T y) a b) :
+    stringComp (strLower T) .eq s [va, vb] = .ok (s, .bool true) := by
+  rw [stringComp_ok (strLower T) .eq (.cons ha (.cons hb .nil)) (by simp)]
+  simp only [Spec.chainHolds, string_ci_eq_of_char_ci_eq T h11 h, Bool.and_self]
+
+/-- a fragment of the Unicode tables: Α/α, Σ/σ/ς are cased letters, `.` and U+0301 are
+    Case_Ignorable, everything else is uncased and maps to itself -/
+def exCase : CaseTable where
+  lower c := if c = 'Α' then ['α'] else if c = 'Σ' then ['σ'] else [c]
+  upper c := if c = 'α' then ['Α'] else if c = 'σ' ∨ c = 'ς' then ['Σ'] else [c]
+  alphabetic c := c == 'Α' || c == 'α' || c == 'Σ' || c == 'σ' || c == 'ς'
+  numeric c := c == '1'
+  whitespace c := c == ' '
+  isLower c := c == 'α' || c == 'σ' || c == 'ς'
+  isUpper c := c == 'Α' || c == 'Σ'
+  cased c := c == 'Α' || c == 'α' || c == 'Σ' || c == 'σ' || c == 'ς'
+  caseIgnorable c := c == '.' || c == '́'
+
+/-- (d) `str::to_lowercase` is NOT context free: "ΑΣ" ↦ "ας", "Α" ↦ "α", but "ΑΣΑ" ↦ "ασα" -/
+theorem final_sigma_context_sensitive :
+    ∃ (T : CaseTable) (a b : Text),
+      strLowerCtx T (a ++ b) ≠ strLowerCtx T a ++ strLowerCtx T b :=
+  ⟨exCase, ['Α', 'Σ'], ['Α'], by decide⟩
+
+/-- … and used as a folding (string.rs before fix fbafd01) it made `string-ci=?` disagree with
+    `char-ci=?`: "ΑΣ" and "ασ" are pairwise equal under the per-character folding, and
+    `string-ci=?` under `strLower`, but not under `strLowerCtx` -/
+theorem final_sigma_breaks_ci :
+    All2 (fun x y => exCase.lower x = exCase.lower y) ['Α', 'Σ'] ['α', 'σ'] ∧
+    CmpOp.eq.holds (cmpText (strLower exCase ['Α', 'Σ']) (strLower exCase ['α', 'σ'])) = true ∧
+    CmpOp.eq.holds (cmpText (strLowerCtx exCase ['Α', 'Σ']) (strLowerCtx exCase ['α', 'σ'])) = false :=
+  ⟨.cons (by decide) (.cons (by decide) .nil), by decide, by decide⟩
+
 /-! ## the hypotheses are satisfiable: a concrete store
 
 `ptr 0` is the string `"aλ€🐶"` (1-, 2-, 3- and 4-byte characters), `ptr 1` the empty string,
@@ -563,7 +661,7 @@ example := integerToChar_err (s := exStore) (v := .num 0x110000) rfl (Or.inr (by
 example := integerToChar_err (s := exStore) (v := .num (-1)) rfl (Or.inl (by decide))
 example := charToInteger_ok (s := exStore) (v := .ptr 3) rfl
 example := integerToChar_charToInteger exStore '🐶'
-example := charUpcase_ascii ⟨fun _ => [], fun _ => [], fun _ => false, fun _ => false, fun _ => false, fun _ => false, fun _ => false⟩ 'q' (by decide)
+example := charUpcase_ascii ⟨fun _ => [], fun _ => [], fun _ => false, fun _ => false, fun _ => false, fun _ => false, fun _ => false, fun _ => false, fun _ => false⟩ 'q' (by decide)
 
 -- the bytes of "aλ€🐶": 61 | CE BB | E2 82 AC | F0 9F 90 B6
 example : Utf8.encodeText exText = [0x61, 0xCE, 0xBB, 0xE2, 0x82, 0xAC, 0xF0, 0x9F, 0x90, 0xB6] := by decide
@@ -575,5 +673,23 @@ example : Utf8.isCharBoundary (Utf8.encodeText exText) 3 = true := by decide
 example : Utf8.isCharBoundary (Utf8.encodeText exText) 4 = false := by decide
 example := stringComp_bytewise (s := exStore) (args := [.ptr 1, .ptr 0, .ptr 0]) id .le
   (.cons ex_empty (.cons ex_str (.cons ex_str .nil))) (by simp)
+
+-- Final_Sigma on the table fragment: word-final, -initial, -medial, alone, doubled, across
+-- Case_Ignorable characters, next to uncased ones
+example : strLowerCtx exCase ['Α', 'Σ'] = ['α', 'ς'] := by decide
+example : strLowerCtx exCase ['Σ', 'Α'] = ['σ', 'α'] := by decide
+example : strLowerCtx exCase ['Α', 'Σ', 'Α'] = ['α', 'σ', 'α'] := by decide
+example : strLowerCtx exCase ['Σ'] = ['σ'] := by decide
+example : strLowerCtx exCase ['Σ', 'Σ'] = ['σ', 'ς'] := by decide
+example : strLowerCtx exCase ['Α', '.', 'Σ'] = ['α', '.', 'ς'] := by decide
+example : strLowerCtx exCase ['Α', 'Σ', '́', 'Α'] = ['α', 'σ', '́', 'α'] := by decide
+example : strLowerCtx exCase ['Α', 'Σ', '.'] = ['α', 'ς', '.'] := by decide
+example : strLowerCtx exCase ['1', 'Σ'] = ['1', 'σ'] := by decide
+example : strLowerCtx exCase ['Α', 'Σ', ' ', 'Α'] = ['α', 'ς', ' ', 'α'] := by decide
+example : strLower exCase ['Α', 'Σ'] = ['α', 'σ'] := by decide
+example := downcase_ctx_eq_lower_of_no_sigma exCase ['Α', 'σ', 'ς'] (by decide)
+example := downcase_ctx_pointwise exCase rfl ['Α', 'Σ']
+example := string_ci_eq_of_char_ci_eq exCase (a := ['Α', 'Σ']) (b := ['α', 'σ'])
+  (by decide) (.cons (by decide) (.cons (by decide) .nil))
 
 end Marwood.Proofs.C15
